@@ -169,7 +169,7 @@ SCENARIOS = {"routing": make}
 
 
 def run(ctx: Ctx) -> None:
-    depth = 7 if ctx.thorough else 6
+    depth = (7 if ctx.thorough else 6) + int(__import__("os").environ.get("VF_DEEPER", 0))
     ctx.rule = (
         f"real Routing + _RoutingFlowControl on the virtual loop (multicast socket replaced by an in-memory endpoint, random.random owned by the harness: 0.0 and 0.999): the COMPLETE tree of "
         f"environment sequences of length {depth} over {MENU} (not deviation bounded), then 5 s of drain. Oracle from the wire log: one RoutingIndication and one local L_Data.con per send, "
